@@ -163,8 +163,20 @@ class Unbuildable(Exception):
     pass
 
 
-def build_con(m, xs, con):
-    """Construct one constraint object through the public constructors / operators (not yet added to the model)."""
+def build_con(m, xs, con, container="list", keep=None):
+    """Construct one constraint object through the public constructors / operators (not yet added to the model).
+    container: how a variable collection is handed over - "list", "tuple", "gen" (one-shot generator) or "mutate"
+    (a list the caller keeps and appends to after the constraint has been added; `keep` collects those lists)."""
+
+    def coll(idx, allow_gen=True):
+        L = [xs[i] for i in idx]
+        if container == "tuple":
+            return tuple(L)
+        if container == "gen" and allow_gen:
+            return (v for v in L)
+        if container == "mutate" and keep is not None:
+            keep.append((L, xs[idx[0]] if idx else None))
+        return L
 
     def bx(e):
         t = e[0]
@@ -190,15 +202,15 @@ def build_con(m, xs, con):
             if not isinstance(c, tuple):
                 raise Unbuildable(f"comparison produced {c!r}")
         elif k == "all_different":
-            c = m.all_different([xs[i] for i in con[1]])
+            c = m.all_different(coll(con[1]))
         elif k in ("sum_eq", "sum_le", "sum_ge"):
-            c = getattr(m, k)([xs[i] for i in con[1]], con[2])
+            c = getattr(m, k)(coll(con[1]), con[2])
         elif k == "circuit":
-            c = m.circuit([xs[i] for i in con[1]])
+            c = m.circuit(coll(con[1]))
         elif k == "no_overlap":
-            c = m.no_overlap([xs[i] for i in con[1]], list(con[2]))
+            c = m.no_overlap(coll(con[1], allow_gen=False), list(con[2]))  # (the constructor needs len())
         elif k == "cumulative":
-            c = m.cumulative([xs[i] for i in con[1]], list(con[2]), list(con[3]), con[4])
+            c = m.cumulative(coll(con[1], allow_gen=False), list(con[2]), list(con[3]), con[4])
         else:
             raise ValueError(con)
     except TypeError as e:
@@ -214,10 +226,17 @@ def build(spec, Model):
     for name, lb, ub in spec["vars"]:
         xs.append(m.int_var(lb, ub, name) if name is not None else m.int_var(lb, ub))
     built = []
-    for con in spec["cons"]:
-        c = build_con(m, xs, con)
+    kinds = spec.get("containers") or []
+    for k, con in enumerate(spec["cons"]):
+        keep = []
+        c = build_con(m, xs, con, kinds[k] if k < len(kinds) else "list", keep)
         m.add(c)
         built.append(c)
+        # the caller goes on using its own list after the constraint has been added: a constraint is a snapshot of
+        # its arguments at construction time
+        for L, extra in keep:
+            if extra is not None:
+                L.append(extra)
     return m, xs, built
 
 
